@@ -7,7 +7,7 @@ import importlib
 from props.base import BaseProp
 from oracle import Recorder
 
-EXN = {"IndexError", "TypeError", "ValueError", "OverflowError", "ZeroDivisionError", "RuntimeError", "KeyError"}
+EXN = {"IndexError", "TypeError", "ValueError", "OverflowError", "ZeroDivisionError", "RuntimeError", "KeyError", "ArgumentError"}
 
 
 def cz(i):
@@ -201,6 +201,26 @@ def gen_args(rng, qual, tier):
             v = rng.choice([rng.randrange(0, 2 ** 31), rng.randrange(2 ** 31, 2 ** 32), rng.randrange(2 ** 32, 2 ** 40), rng.randrange(0, 100)])
             ss.append(str(v) + rng.choice(["", "'", "h"]))
         out += [(x,) for x in ss]
+    elif qual in ("__main__.address_index", "__main__.account_index"):
+        ss = ["0", "1", "-1", "2147483646", "2147483647", "2147483648", "4294967294", "4294967295", "4294967296", " 5", "5 ", "+7", "1_000", "0x10", "", "abc",
+              "1.0", "-0", "00", "9" * 25, "5\x1f", "\t9\n", "１２", "1e3"]
+        ss += [str(rng.randrange(0, 2 ** 33)) for _ in range(n)]
+        out += [(x,) for x in ss]
+    elif qual == "__main__.value_in_interval":
+        for _ in range(n):
+            lo = rng.randrange(-5, 10)
+            hi = lo + rng.randrange(0, 20)
+            out.append((str(rng.randrange(lo - 3, hi + 3)), lo, hi, "X"))
+        out += [("x", 0, 5, "n"), ("", 0, 5, "n"), ("3", 3, 3, "n"), ("3", 3, 4, "n"), ("4", 3, 4, "n"), (" 2 ", 0, 5, "n")]
+    elif qual in ("__main__.extended_key", "__main__.bip39_seed", "__main__.entropy_hex"):
+        for L in (0, 1, 32, 40, 48, 56, 64, 63, 65, 110, 111, 112, 127, 128, 129, 31, 33):
+            out.append(("".join(rng.choice("0123456789abcdefXYZ é") for _ in range(L)),))
+    elif qual == "__main__.mnemonic":
+        w = ["abandon", "zoo", "legal", "winner"]
+        for k in (0, 1, 11, 12, 13, 15, 18, 21, 24, 25):
+            out.append((" ".join(rng.choice(w) for _ in range(k)),))
+        out += [(" " + " ".join(["zoo"] * 12),), (" ".join(["zoo"] * 12) + "\n",), ("  ".join(["zoo"] * 12),), ("\t".join(["zoo"] * 12),),
+                (" ".join(["zoo"] * 11) + "\x1f",), (" ".join(["zoo"] * 11) + " \x1c",), (" ".join(["zoö"] * 12),), ("",), (" ",)]
     elif qual == "wallet_utils.Bip32Path.is_hardened":
         out += [(v,) for v in (0, 1, 2 ** 31 - 1, 2 ** 31, 2 ** 31 + 1, 2 ** 32, -1, -2 ** 31)]
     elif qual == "wallet_utils.Bip32Path.is_private":
